@@ -1,6 +1,7 @@
 package props
 
 import (
+	"go/token"
 	"fmt"
 	"strings"
 
@@ -311,8 +312,15 @@ func runC06(c *eng.Ctx) {
 		}
 		// the index page bound is ack / entries-per-page with the same constant the writer uses
 		ip := c.One(f, invokeOn(".indexPageFct", "TruncatePages"), "indexPageFct.TruncatePages").Instr.(*ssa.Call)
-		d := p.Desc(eng.CallArgs(ip)[0])
-		c.Check(strings.HasSuffix(d, "/262144)"), "index-page-bound", ip, f, "index pages are truncated strictly below the page holding the ack entry", "bound "+d)
+		bound := eng.Unwrap(eng.ThroughHelper(eng.CallArgs(ip)[0]))
+		nv, _ := p.ConstInt64("pkg/queue", "indexItemsPerPage")
+		okB := false
+		if bo, isB := bound.(*ssa.BinOp); isB && bo.Op == token.QUO {
+			if k, isC := eng.ConstInt(bo.Y); isC && k == nv {
+				okB = eng.DependsOn(bo.X, func(x ssa.Value) bool { return x == ssa.Value(ack) })
+			}
+		}
+		c.Check(okB, "index-page-bound", ip, f, "index pages are truncated strictly below the page holding the ack entry (ack / entries-per-page)", "bound "+p.Desc(bound))
 	})
 
 	// ---- OWNER: who may store positions / truncate ---------------------------------------------
